@@ -69,6 +69,11 @@ def _offset_harness(ctx, m, mode):
     if mode == "utc":
         e = ctx.new(EPOCH, y, m, d, h, mi, s, utc=True)
         want = ite(y >= 1972, 42.184 + iers_leap_count(y, m), 0.0)
+    elif mode == "both":
+        # an explicit leap_seconds value replaces the table value also when utc=True is given with it
+        k = ctx.int("k", lo=1, hi=60)
+        e = ctx.new(EPOCH, y, m, d, h, mi, s, utc=True, leap_seconds=k)
+        want = ite(y >= 1972, 42.184 + k, 0.0)
     else:
         k = ctx.int("k", lo=1, hi=60)
         e = ctx.new(EPOCH, y, m, d, h, mi, s, leap_seconds=k)
@@ -90,6 +95,11 @@ def h_utc(ctx, m):
 @P.harness("construct/leap_seconds-override", cases=[dict(m=k) for k in range(1, 13)], crosscheck=5)
 def h_override(ctx, m):
     _offset_harness(ctx, m, "override")
+
+
+@P.harness("construct/utc-and-leap_seconds-together", cases=[dict(m=k) for k in range(1, 13)], crosscheck=5)
+def h_both(ctx, m):
+    _offset_harness(ctx, m, "both")
 
 
 # ---- 3. read-back: complete enumeration of the stated domain, on the real code
@@ -134,6 +144,10 @@ def g_override(tier):
                 yy, mm, dd = e.get_date(leap_seconds=k)
                 frac = (hh * 3600 + mi * 60 + ss) / 86400.0
                 ok2 = _same_instant(y, m, d, frac, (yy, mm, dd))
+                if k:
+                    e2 = Epoch(y, m, d, hh, mi, ss, utc=True, leap_seconds=k)
+                    ok1 = ok1 and abs((e2.jde() - plain.jde()) * 86400.0 - want) < 1e-3
+                    ok2 = ok2 and _same_instant(y, m, d, frac, e2.get_date(utc=True, leap_seconds=k))
                 yield ((y, m, d, hh, mi, ss, k), ok1 and ok2,
                        "offset %.3f want %.3f; read back %r" % (off, want, (yy, mm, dd)))
 
